@@ -4,8 +4,9 @@
    modifications"); there is no storage, no sharing and no capacity in the specification.
    The byte functions clit (a literal read as a C string), cmp, icmp, lower, upper are the
    ones of Model.v (pure functions on lists of bytes).
-   [pre] is the part of the alphabet for which the refinement theorem is stated: it is a
-   condition on the ABSTRACT values only (what a client can know). *)
+   [pre] is the part of the alphabet for which the refinement theorem is stated: genuine
+   preconditions of the code, expressed on the abstract values and on a ghost flag "has
+   storage" (what a client can know). *)
 From Coq Require Import ZArith NArith List Bool Arith.
 From Morfuse Require Import Base.Arr C18str.Model.
 Import ListNotations.
@@ -67,32 +68,53 @@ Fixpoint spec_from (nv : nat) (a : abs) (ops : list op) : list obs :=
 Definition spec_run (nv : nat) (ops : list op) : list obs := spec_from nv abs_init ops.
 
 (* ---- the alphabet of the theorem -------------------------------------------------------
-   all variables are among the nv slots, and
-   - append("") / append(empty string) are not applied to an empty string,
-   - a string is not appended to itself,
-   - the non-const operator[], tolower() and toupper() are applied to non-empty strings
-     only, and no 0 byte is stored through operator[],
-   - resize, reserve and assign(text, n) are not used.
-   Each of these exclusions is a behaviour of the code that contradicts the byte-string
-   specification (see the ..._refuted theorems in Properties.v). *)
+   Genuine preconditions only, all of them conditions on what the client knows:
+   - all variables are among the nv slots;
+   - the non-const operator[], tolower() and toupper() assert m_data != null: they are
+     applied only to a string that certainly has storage.  [has] is a conservative ghost
+     flag per variable ("has been given storage": assigned a non-empty text, appended to,
+     resized / reserved / assign(text, n)ed, or copied from such a string, and not cleared
+     or assigned an empty text since); it is not part of the specification's values;
+   - no 0 byte is stored through operator[];
+   - C-string operations (the appends, CapLength, -=, operator[] write, tolower/toupper,
+     resize, reserve, v = w.c_str()) are applied only to strings without 0 bytes: a string
+     holds 0 bytes only after a growing resize() or an assign(text, n) of such bytes, until
+     it is given a new value (assignment, copy, clear, assign(text, n)). *)
 Definition inr (nv : nat) (v : N) : bool := N.ltb v (N.of_nat nv).
 
-Definition pre (nv : nat) (a : abs) (o : op) : bool :=
+Definition nonul (l : list N) : bool := forallb (fun c => negb (N.eqb c 0)) l.
+
+Definition has := arr bool.
+Definition has_init : has := aempty false.
+
+Definition has_step (a : abs) (h : has) (o : op) : has :=
   match o with
-  | OSetLit v _ | OAppendChar v _ | OGetChar v _ | OCap v _ | OMinus v _ | OClear v => inr nv v
-  | OCopy v w | OCtorCopy v w | OAssignCstr v w | OCmp v w => inr nv v && inr nv w
-  | OAppendLit v lit => inr nv v && negb (isnil (get a v) && isnil (clit lit))
-  | OAppendStr v w =>
-      inr nv v && inr nv w && negb (N.eqb v w) && negb (isnil (get a v) && isnil (get a w))
-  | OSetChar v _ c => inr nv v && negb (isnil (get a v)) && negb (N.eqb c 0)
-  | OLower v | OUpper v => inr nv v && negb (isnil (get a v))
-  | OResize _ _ | OReserve _ _ | OAssignN _ _ => false
+  | OSetLit v lit => set h v (negb (isnil (clit lit)))
+  | OCopy v w => set h v (get h w)
+  | OCtorCopy v w => if N.eqb v w then h else set h v (get h w)
+  | OAssignCstr v w => set h v (negb (isnil (clit (get a w))))
+  | OAppendLit v _ | OAppendStr v _ | OResize v _ | OReserve v _ | OAssignN v _ => set h v true
+  | OAppendChar v c => if N.eqb c 0 then h else set h v true
+  | OClear v => set h v false
+  | OSetChar _ _ _ | OGetChar _ _ | OCap _ _ | OMinus _ _ | OLower _ | OUpper _ | OCmp _ _ => h
   end.
 
-Fixpoint safe_from (nv : nat) (a : abs) (ops : list op) : bool :=
+Definition pre (nv : nat) (a : abs) (h : has) (o : op) : bool :=
+  match o with
+  | OSetLit v _ | OGetChar v _ | OClear v | OAssignN v _ => inr nv v
+  | OCopy v w | OCtorCopy v w | OCmp v w => inr nv v && inr nv w
+  | OAssignCstr v w => inr nv v && inr nv w && nonul (get a w)
+  | OAppendLit v _ | OAppendChar v _ | OCap v _ | OMinus v _ | OResize v _ | OReserve v _ =>
+      inr nv v && nonul (get a v)
+  | OAppendStr v w => inr nv v && inr nv w && nonul (get a v) && nonul (get a w)
+  | OSetChar v _ c => inr nv v && get h v && nonul (get a v) && negb (N.eqb c 0)
+  | OLower v | OUpper v => inr nv v && get h v && nonul (get a v)
+  end.
+
+Fixpoint safe_from (nv : nat) (a : abs) (h : has) (ops : list op) : bool :=
   match ops with
   | [] => true
-  | o :: ops' => pre nv a o && safe_from nv (fst (spec_step a o)) ops'
+  | o :: ops' => pre nv a h o && safe_from nv (fst (spec_step a o)) (has_step a h o) ops'
   end.
 
-Definition safe (nv : nat) (ops : list op) : bool := safe_from nv abs_init ops.
+Definition safe (nv : nat) (ops : list op) : bool := safe_from nv abs_init has_init ops.
